@@ -22,8 +22,10 @@ def meta(tier, seed):
                 "constructor's; distinct by canonical state digest and query size",
         "oracle": "predict: scalar for <=1 row else list of m, every element a member of mab.arms with the label's own "
                   "Python type; predict_expectations: dict (or list of m dicts) whose key list equals mab.arms in order; "
-                  "deterministic policies: row i of a batch equals the single-row answer for row i",
-        "bounds": {"depth": 3 if tier == "quick" else 4, "label_types": ["int", "str", "float"],
+                  "deterministic policies: row i of a batch equals the single-row answer for row i; probe: the bandit "
+                  "itself answers queries, its arms then change without changing their number (remove+add in either order), "
+                  "and the outputs must again range over exactly the new arm list",
+        "bounds": {"depth": "3 (2 for float labels and for n_jobs=2)" if tier == "quick" else 4, "label_types": ["int", "str", "float"],
                    "n_jobs": [1, "2 (joblib model: isolated pickled workers, task order)"], "query_rows": ["none", 1, 2, 3]},
         "assumptions": ["KNearest states with fewer stored rows than k are outside the domain (counted as skipped)",
                         "explicit no_nhood_prob_of_arm vectors combined with arm changes are outside the alphabet "
@@ -39,7 +41,8 @@ def shards(tier, seed):
             for n_jobs in (1, 2):
                 if n_jobs == 2 and labels != "int" and tier == "quick":
                     continue
-                out.append({"ln": ln, "nn": nn, "labels": labels, "n_jobs": n_jobs, "depth": depth, "seed": 3 + seed})
+                d = depth - 1 if (tier == "quick" and (labels == "float" or n_jobs == 2)) else depth
+                out.append({"ln": ln, "nn": nn, "labels": labels, "n_jobs": n_jobs, "depth": d, "seed": 3 + seed})
     return A.heavy_first(out)
 
 
@@ -136,6 +139,44 @@ def check_state(mab, cfg, ln, cf, model):
     return out
 
 
+def probe_after_queries(mab, cf, labels, model):
+    """The bandit itself answers queries, then its arms change without changing their number, then it is
+    queried again: anything a prediction left behind (label caches, ...) must not leak into the outputs."""
+    out = []
+    arms = list(mab.arms)
+    new = S.LABELS[labels][1] if S.LABELS[labels][1] not in arms else None
+    if new is None or len(arms) < 2:
+        return out
+    q = None if cf else [[0, 0], [1, 1], [2, 2]]
+    for seq in ([["remove_arm", arms[0]], ["add_arm", new]], [["add_arm", new], ["remove_arm", arms[0]]],
+                [["remove_arm", arms[-1]], ["add_arm", new]]):
+        m = copy.deepcopy(mab)
+        with model():
+            try:
+                m.predict(*(() if q is None else (copy.deepcopy(q),)))
+                m.predict_expectations(*(() if q is None else (copy.deepcopy(q),)))
+                for op in seq:
+                    ops.apply(m, op)
+                p = m.predict(*(() if q is None else (copy.deepcopy(q),)))
+                e = m.predict_expectations(*(() if q is None else (copy.deepcopy(q),)))
+            except Exception as ex:                           # noqa: BLE001
+                out.append(("probe", "query / arm change sequence %r raised %s" % ([o[0] for o in seq], type(ex).__name__)))
+                continue
+        now = list(m.arms)
+        ps = p if isinstance(p, list) else [p]
+        es = e if isinstance(e, list) else [e]
+        bad = [x for x in ps if not _is_member(x, now)]
+        if bad:
+            out.append(("probe", "after queries and %r predict returned %r, not a current arm of %r" % (
+                [o[0] + "(%r)" % (o[1],) for o in seq], bad[0], now)))
+        for d in es:
+            msg = _check_expect(d, now)
+            if msg:
+                out.append(("probe", "after queries and %r: %s" % ([o[0] for o in seq], msg)))
+                break
+    return out
+
+
 def _model(n_jobs):
     if n_jobs == 1:
         import contextlib
@@ -159,6 +200,8 @@ def run_shard(shard):
         acc.traces += 1
         changed = any(o[0] in ("add_arm", "remove_arm") for o in hist)
         bad = check_state(mab, cfg, ln, cf, model)
+        if not bad:
+            bad = probe_after_queries(mab, cf, labels, model)
         for ql, _q in S.query_sets(cf):
             acc.case(("%s/%s/%s/%d" % (ln, nn, labels, shard["n_jobs"]), tuple(map(str, hist)), ql) if changed else None)
         acc.outcome([ops.norm(list(mab.arms)), len(bad)])
@@ -168,7 +211,7 @@ def run_shard(shard):
             acc.violation("%s/%s %s %s: %s" % (ln, nn, labels, ql, msg.split(":")[0][:50]),
                           {"cfg": cfg, "ln": ln, "history": hist}, "%s: %s" % (ql, msg))
 
-    S.explore(cfg, labels, shard["depth"], acc, visit, model=model if shard["n_jobs"] > 1 else None)
+    S.explore(cfg, labels, shard["depth"], acc, visit, model=model if shard["n_jobs"] > 1 else None, query=True)
     return acc.result()
 
 
@@ -179,4 +222,6 @@ def replay(w):
     for op in w["history"]:
         with model():
             ops.apply(mab, op)
-    return ["%s: %s" % x for x in check_state(mab, cfg, ln, ops.is_context_free(cfg), model)]
+    cf = ops.is_context_free(cfg)
+    labels = "int" if isinstance(cfg["arms"][0], int) else "str" if isinstance(cfg["arms"][0], str) else "float"
+    return ["%s: %s" % x for x in (check_state(mab, cfg, ln, cf, model) or probe_after_queries(mab, cf, labels, model))]
